@@ -25,6 +25,7 @@ import (
 	"time"
 
 	"github.com/XiaoMi/Gaea/models"
+	"github.com/XiaoMi/Gaea/proxy/server"
 
 	"verif/engine/ev"
 	"verif/engine/gx"
@@ -585,8 +586,17 @@ type world struct {
 	gen   int
 }
 
+// The namespace admits maxClients client connections; the harness never holds more than
+// 2*maxWorkers+2 at a time, so only a leaked slot can exhaust the limit.
+const (
+	nsName     = "ns_c38"
+	maxClients = 32
+	maxWorkers = 8
+)
+
 func spec() e2erig.ChildSpec {
-	ns := e2erig.Namespace("ns_c38", 16, "@0")
+	ns := e2erig.Namespace(nsName, 16, "@0")
+	ns.MaxClientConnections = maxClients
 	return e2erig.ChildSpec{Prefix: "c38", Backends: 1, Namespaces: []*models.Namespace{ns}}
 }
 
@@ -597,6 +607,35 @@ func (w *world) start() {
 	}
 	w.child = c
 	w.gen++
+}
+
+// connCount reads the namespace's client-connection counter inside the child.
+func (w *world) connCount() int {
+	rep, err := w.child.Command("conncount " + nsName)
+	if err != nil {
+		if !w.child.Alive() {
+			return -1
+		}
+		ev.Fatalf("conncount: %v", err)
+	}
+	n := -1
+	fmt.Sscan(rep, &n)
+	return n
+}
+
+// waitCount waits (liveness horizon) until the counter is back at target or below.
+func (w *world) waitCount(target int) (int, bool) {
+	deadline := time.Now().Add(horizon)
+	for {
+		n := w.connCount()
+		if n <= target {
+			return n, true
+		}
+		if time.Now().After(deadline) {
+			return n, false
+		}
+		time.Sleep(3 * time.Millisecond)
+	}
 }
 
 func healthy(addr string) (*e2erig.Client, error) {
@@ -633,6 +672,9 @@ func tail(s string, n int) string {
 
 func main() {
 	gx.Quiet()
+	e2erig.RegisterChildCommand("conncount", func(p *e2erig.Proxy, ns string) string {
+		return fmt.Sprint(server.VerifClientConnections(p.Mgr, ns))
+	})
 	e2erig.MaybeChild()
 	initSeeds()
 	r := ev.Start("C38", "exploration")
@@ -671,6 +713,12 @@ func main() {
 			}
 		}
 		defer h.Close()
+		// the server counts a connection when Session.Run starts, i.e. possibly after the
+		// client has seen the handshake OK: one round trip makes sure h is counted
+		if err := selectOne(h); err != nil {
+			ev.Fatalf("healthy session: %v", err)
+		}
+		base := w.connCount()
 		res := runCase(w.child.Addr, c)
 		time.Sleep(20 * time.Millisecond)
 		if !w.child.Alive() {
@@ -690,6 +738,11 @@ func main() {
 				return "crash", res, w.child.ExitState() + "\n" + w.child.Stderr()
 			}
 			return "other_session_affected", res, err.Error()
+		}
+		// the namespace's connection counter returns to its value before the case
+		if n, ok := w.waitCount(base); !ok && w.child.Alive() {
+			res.detail = fmt.Sprintf("the namespace's client-connection counter stays at %d (%d before the case) although the case's connection is closed", n, base)
+			return "connection_slot_leaked", res, ""
 		}
 		// ... and a session opened afterwards works too
 		h2, err := healthy(w.child.Addr)
@@ -743,8 +796,8 @@ func main() {
 	}
 	r.Set("universe", len(cases))
 	workers := runtime.GOMAXPROCS(0)
-	if workers > 16 {
-		workers = 16
+	if workers > maxWorkers {
+		workers = maxWorkers
 	}
 	var next, done int64
 	outcomes := map[string]int{}
@@ -760,10 +813,9 @@ func main() {
 				defer wg.Done()
 				addr := w.child.Addr
 				h, err := healthy(addr)
-				if err != nil {
-					return
+				if err == nil {
+					defer h.Close()
 				}
-				defer h.Close()
 				for {
 					i := int(atomic.AddInt64(&next, 1) - 1)
 					if i >= to {
@@ -774,7 +826,7 @@ func main() {
 						return
 					}
 					c := cases[i]
-					if !w.child.Alive() {
+					if h == nil || !w.child.Alive() {
 						omu.Lock()
 						suspects = append(suspects, c)
 						omu.Unlock()
@@ -811,18 +863,76 @@ func main() {
 	// a hang candidate 5 x 20 s): the verdict is known, the evidence says exhaustive:false
 	const maxReports = 6
 	reported := 0
+	leaksReported := 0
 	batchSize := 2000
 	if v := os.Getenv("C38_BATCH"); v != "" {
 		fmt.Sscan(v, &batchSize)
 	}
-	for from := 0; from < len(cases) && atomic.LoadInt32(&capped) == 0; from += batchSize {
-		to := from + batchSize
-		if to > len(cases) {
-			to = len(cases)
+	// leakOf runs one case alone and reports whether the namespace's connection counter
+	// fails to return to its value before the case (all connections of the case closed).
+	leakOf := func(c Case) (bool, result, int) {
+		if !w.child.Alive() {
+			w.start()
+		}
+		base := w.connCount()
+		res := runCase(w.child.Addr, c)
+		n, ok := w.waitCount(base)
+		return !ok && w.child.Alive(), res, n - base
+	}
+	for from := 0; from < len(cases) && atomic.LoadInt32(&capped) == 0; {
+		// a batch = the cases of one seed (at most batchSize)
+		to := from
+		for to < len(cases) && cases[to].Seed == cases[from].Seed && len(cases[to].Muts) == len(cases[from].Muts) && to-from < batchSize {
+			to++
 		}
 		batch(from, to)
 		if !w.child.Alive() {
 			w.start()
+		} else if n, ok := w.waitCount(0); !ok {
+			// every harness connection is closed, yet the namespace still counts n client
+			// connections: some case of this batch leaked its slot. Find it: fresh child, one
+			// case at a time, counter before/after.
+			r.Add("batches_with_leaked_connection_slots", 1)
+			w.child.Close()
+			w.start()
+			for _, c := range cases[from:to] {
+				if r.TimeUp() || reported >= maxReports || leaksReported >= 2 {
+					atomic.StoreInt32(&capped, 1)
+					break
+				}
+				leaked, res, by := leakOf(c)
+				if !leaked {
+					continue
+				}
+				// confirmation: 4 more runs back to back, then ONE wait: every run must have
+				// left its slot occupied (counter >= base + 5 after the horizon)
+				base := w.connCount() - by
+				for i := 0; i < 4; i++ {
+					res = runCase(w.child.Addr, c)
+				}
+				after, _ := w.waitCount(base)
+				if after-base < 5 {
+					r.Add("unconfirmed_leak_candidates", 1)
+					continue
+				}
+				res.detail = fmt.Sprintf("after the case (its connection closed) the namespace's client-connection counter stays above its value before the case: +%d after 5 runs; batch %s[%d..%d) left %d slots of max_client_connections=%d occupied", after-base, cases[from].Seed, from, to, n, maxClients)
+				report(c, "connection_slot_leaked", res, "")
+				reported++
+				leaksReported++
+				w.child.Close()
+				w.start()
+				break // one culprit per batch is enough to localise the defect
+			}
+		} else if h, err := healthy(w.child.Addr); err != nil {
+			// hard requirement: a session opened after the batch works
+			omu.Lock()
+			suspects = append(suspects, cases[from])
+			omu.Unlock()
+		} else {
+			if selectOne(h) != nil {
+				suspects = append(suspects, cases[from])
+			}
+			h.Close()
 		}
 		// sequential re-examination
 		sus := suspects
@@ -894,6 +1004,7 @@ func main() {
 				w.start()
 			}
 		}
+		from = to
 	}
 	if atomic.LoadInt32(&capped) != 0 {
 		r.Capped(fmt.Sprintf("stopped (time budget, or %d violations confirmed) after %d of %d cases in enumeration order (all single mutations come before pairs)", maxReports, done, len(cases)))
